@@ -374,7 +374,11 @@ std::string roundtrip(const T &x, Fresh fresh, Load load, Obs obs)
   if (!sok) return "bad:save-returned-false";
   T y(fresh());
   std::istringstream in(bytes);
-  if (!load(y, in)) return "bad:load-failed";
+  try
+  {
+    if (!load(y, in)) return "bad:load-failed";
+  }
+  catch (const std::exception &) { return "bad:load-threw"; }
   const std::string ox(obs(x)), oy(obs(y));
   if (ox != oy) return "bad:reloaded-object-differs";
   bool sok2(false);
